@@ -1,0 +1,36 @@
+//go:build verif
+
+package beacon
+
+import (
+	beacon "github.com/oasisprotocol/oasis-core/go/beacon/api"
+	"github.com/oasisprotocol/oasis-core/go/consensus/cometbft/api"
+)
+
+// Verification hooks (build tag "verif" only), read-only. No behaviour change.
+
+// VerifBlockEntropy is insecureBlockEntropy of the block being processed in ctx.
+func VerifBlockEntropy(ctx *api.Context) []byte {
+	return insecureBlockEntropy(ctx)
+}
+
+// VerifProdEntropyCtx is the entropy context of the production beacon.
+func VerifProdEntropyCtx() []byte {
+	return append([]byte{}, prodEntropyCtx...)
+}
+
+// VerifAlpha is the VRF alpha for the given epoch: the low-quality one over
+// the given block entropy when betas is nil, otherwise the high-quality one
+// over the given betas (in the given order). It uses the real
+// initAlphaCommon (domain separator, chain context, epoch).
+func VerifAlpha(ctx *api.Context, epoch beacon.EpochTime, blockEntropy []byte, betas [][]byte) []byte {
+	h := (&backendVRF{}).initAlphaCommon(ctx, epoch)
+	if betas == nil {
+		_, _ = h.Write(blockEntropy)
+	} else {
+		for _, b := range betas {
+			_, _ = h.Write(b)
+		}
+	}
+	return h.Sum(nil)
+}
